@@ -837,6 +837,14 @@ def gen_C19(tier, seed):
         else:
             o = r.choice(offsets)
             out.append(f"fmt_render_const {p3(e)} {p2(o)} {r.randint(0, 1)} {r.randint(0, 8)}")
+    # ISO 8601 formatter against Display: whole seconds (known finding) and fractional epochs, all integer scales
+    rr = random.Random(seed * 31 + 19)
+    for t in INT_SCALES:
+        for v in (0, 1, SEC, SEC + 1, -SEC, -1, NPD, NPD - 1, 3786825600 * SEC, 3786825600 * SEC + 37, -59958230400 * SEC + 5):
+            out.append(f"iso_vs_display {p3(parts_of(v) + (t,))}")
+    for _ in range(budget(tier, 600, 60000)):
+        v = rr.randint(-59958230400, 253402300799 - 3155716800) * SEC + rr.choice([0, 0, 1, 999999999, rr.randint(0, SEC - 1), 500000000, 1000, 1000000])
+        out.append(f"iso_vs_display {p3(parts_of(v) + (rr.choice(INT_SCALES),))}")
     return out
 
 
